@@ -6,7 +6,7 @@ import props
 ctx = props.Ctx(V, os.environ.get("VERIF_REPO", "/repo"), os.path.join(V, "build"), "setup", "quick", 1)
 os.makedirs(ctx.B, exist_ok=True)
 for fl in ("plain", "o0", "asan"):
-    props.build_flavour(ctx, fl)
+    props.build_flavour(ctx, fl, targets=("objsim", "hugesim") if fl == "plain" else ("objsim",))
     print("built", fl)
 try:
     import engines
